@@ -198,3 +198,19 @@ Proof.
               eq_refl eq_refl eq_refl (proj1 ex_synrule_object_backward_hyps) Hs g Ig) as [A B].
   split; [exact A|exact (proj2 (B ex_tpl_condition))].
 Qed.
+
+(** the template-side hypotheses as one boolean: true on ex_tpl_x; false on a template whose stripped hydrogen has no
+    partner on the product side (O-H >> O . H: the hydrogen leaves) *)
+Example ex_default_tpl_okb :
+  default_tpl_okb ex_tpl_x = true /\ removedR ex_tpl_x = [2%N] /\ keptK ex_tpl_x = [1%N; 3%N] /\
+  default_tpl_okb (LG [(1%N, same (at_ Oo 0 0)); (2%N, same (at_ EL_H 0 0)); (3%N, same (at_ Nn 0 0))]
+                      [(1%N, 2%N, (2, 0, 2)); (2%N, 3%N, (0, 2, -2)); (1%N, 3%N, (0, 0, 0))]) = true /\
+  default_tpl_okb (LG [(1%N, same (at_ Oo 0 0)); (2%N, same (at_ EL_H 0 0)); (3%N, same (at_ Nn 0 0))]
+                      [(1%N, 2%N, (2, 0, 2)); (2%N, 3%N, (2, 2, 0))]) = false.
+Proof. vm_compute. repeat split. Qed.
+Example ex_default_bool : forall gs g, spec_its ex_inp_b = Some gs -> In g gs ->
+  total_charge (fst (its_decompose g)) = total_charge (snd (its_decompose g)).
+Proof.
+  intros gs g Hs Ig. destruct ex_backward_default_hyps as (H1 & H2 & _).
+  exact (proj2 (proj2 (its_list_default_bool true ex_inp_b ex_tpl_x _ _ _ gs (proj1 ex_default_tpl_okb) eq_refl H1 eq_refl H2 Hs g Ig))).
+Qed.
